@@ -177,6 +177,7 @@ PROPS = {
         ],
         "not_decided": [
             "the property itself is RELATIONAL (the same program under direct inspection, nesting, Core, the bridge yields the same outputs at the same points): not a per-call contract and not decided",
+            "also counted here (unit Q): Command::run_until_settled and Core::process return only at their local fixpoint (no runnable work left behind, every internally emitted event applied) - which is what makes a wake-up that arrives during a call noticed by the host in the SAME call",
             "what IS decided is its 'in particular' sentence, layer by layer: a woken command task is queued once and the command's host is woken too (CommandWaker), the hosting executor task is re-queued (TaskWaker), the host's waker is registered first thing in every poll and before any task runs (poll_next), a stream request stores its consumer's waker before the request can be answered; composing these over arbitrary nesting depth is an induction over programs, not a contract",
             "dropping a request closes its channel, which wakes the awaiting task: futures-mpsc behaviour (assumed)",
         ],
